@@ -49,9 +49,8 @@ def ob_call(report):
                   (r'time::sleep$|sleep::sleep$|sleep_until$', m_sleep)]
         ex = e2.executor('anemo-tower', models, max_depth=2)
         fn = find_method(ex.prog, 'RateLimit', 'call', trait='Service')
-        sf = struct_fields(SRC, 'RateLimit')
-        svc = struct_sym('svc', 'RateLimit<S>', sf, {'inner': Sym('inner', 'S'), 'limiter': Sym('limiter', 'Arc<RateLimiter>'), 'clock': Sym('clock', 'QuantaClock'),
-                                                    'wait_mode': Sym('wait_mode', 'WaitMode')})
+        svc = struct_sym_deep('svc', 'RateLimit<S>', SRC, 'RateLimit', {'inner': Sym('inner', 'S'), 'limiter': Sym('limiter', 'Arc<RateLimiter>'),
+                                                                       'clock': Sym('clock', 'QuantaClock'), 'wait_mode': Sym('wait_mode', 'WaitMode')})
         p0 = Path()
         p0.mem[('H', 'svc', 'RateLimit')] = svc
         outs = []
@@ -141,7 +140,9 @@ def ob_call(report):
                                 'rl-hint-units', path_summary(r), len(res))
                 if vname(ex.deref(r.path, nw[0].args[0])) != 'clock':
                     return viol(ob, [ex], 'the wait hint is not computed from the limiter\'s own clock', 'rl-hint-clock', path_summary(r), len(res))
-                if not derives_from(wh[0].args[2], lambda v: isinstance(v, Bytes) and v.b == b'\xc0\x00', ex=ex, p=r.path):
+                plain = lambda v: (isinstance(v, Bytes) and v.b == b'\xc0\x00') or \
+                    (isinstance(v, tuple) and len(v) == 2 and v[0] == 'call' and re.search(r'as ToString>::to_string$', str(v[1])) is not None)     # format!("{}", n) | n.to_string()
+                if not derives_from(wh[0].args[2], plain, ex=ex, p=r.path) or not derives_from(wh[0].args[2], lambda v: isinstance(v, (Sym, z3.ExprRef)) and vname(v) == vname(an[0].ret), ex=ex, p=r.path):
                     return viol(ob, [ex], 'the wait hint is not the plain decimal rendering of the nanoseconds', 'rl-hint-format', path_summary(r), len(res))
         if not {'no-sender', 'called', 'refused'} <= seen:
             return ob.done([ex], 'inconclusive', f'vacuity: {sorted(seen)}', paths=len(res))
@@ -155,13 +156,14 @@ def ob_layer(report):
     def body(ob):
         ex = e2.executor('anemo-tower', [], max_depth=2)
         fn = find_method(ex.prog, 'RateLimitLayer', 'layer', trait='Layer')
-        lf = struct_fields(SRC, 'RateLimitLayer')
-        sf = struct_fields(SRC, 'RateLimit')
         res = ex.run(fn, [Ptr(('H', 'layer', 'RateLimitLayer')), Sym('inner', 'S')])
         for r in res:
             ret = r.ret
-            ok = r.tag == 'return' and isinstance(ret, Agg) and vname(ret.fields[sf.index('limiter')]) == f'layer.{lf.index("limiter")}' \
-                and vname(ret.fields[sf.index('wait_mode')]) == f'layer.{lf.index("wait_mode")}' and vname(ret.fields[sf.index('inner')]) == 'inner'
+            ok = r.tag == 'return' and isinstance(ret, Agg)
+            if ok:
+                layer = ex.deref(r.path, Ptr(('H', 'layer', 'RateLimitLayer')))
+                same_role = lambda role: vname(read_role(ex, ret, SRC, 'RateLimit', role)) == vname(read_role(ex, layer, SRC, 'RateLimitLayer', role))
+                ok = same_role('limiter') and same_role('wait_mode') and vname(read_role(ex, ret, SRC, 'RateLimit', 'inner')) == 'inner'
             if not ok:
                 return viol(ob, [ex], f'RateLimitLayer::layer does not share the layer\'s limiter / mode with the service: {vrepr(ret)[:200]}', 'rl-layer-share', path_summary(r), len(res))
         ob.done([ex], 'held', '', {'paths': len(res)}, paths=len(res))
